@@ -54,7 +54,9 @@ UNKNOWN = ["http://json-schema.org/draft-09/schema#", "urn:dsim:nobody", "not a 
            "http://JSON-SCHEMA.ORG/draft-06/schema#", "http://json-schema.org/schema#",
            "http://json-schema.org/draft-03/schema?v=1", "//json-schema.org/draft-07/schema#",
            "http://json-schema.org/draft-04/schema#/definitions", "http://www.json-schema.org/draft-04/schema#",
-           "http://json-schema.org/draft/2019-09/schema", "http://json-schema.org/draft-4/schema#"]
+           "http://json-schema.org/draft/2019-09/schema", "http://json-schema.org/draft-4/schema#",
+           # strings that are not even parsable as URIs (urlsplit refuses them): unknown all the same
+           "http://[not-a-host/schema#", "http://[::1/draft-07/schema", "//[x"]
 BATTERY = [
     ({"minimum": 5, "exclusiveMinimum": True}, 5),
     ({"exclusiveMinimum": 5}, 5),
@@ -605,9 +607,14 @@ def execute(scn):
                     sel, _ = model_select(body2)
                     inst2 = [1.0, "x", 2]
                     full = sorted(jdump(canon_error(e)) for e in sel(copy.deepcopy(body2)).iter_errors(copy.deepcopy(inst2)))
-                    with warnings.catch_warnings():
-                        warnings.simplefilter("ignore")
-                        chosen = V.validator_for(body2)
+                    try:
+                        with warnings.catch_warnings():
+                            warnings.simplefilter("ignore")
+                            chosen = V.validator_for(body2)
+                    except Exception as x:
+                        violations.append({"oracle": "validator_for-raised", "where": step, "op": k,
+                                           "detail": {"mapping_type": "dict", "exc": type(x).__name__, "msg": str(x)[:200]}})
+                        chosen = sel
                     it = chosen(copy.deepcopy(body2)).iter_errors(copy.deepcopy(inst2))
                     first = [jdump(canon_error(e)) for e in [next(it)]] if full else []
                     suspended.append({"it": it, "first": first, "full": full, "step": step})
